@@ -129,6 +129,46 @@ class _iadd_u:
                    same(Fq(old.other), Fq(a.other)), same(Eq(old.other), Eq(a.other)))
 
 
+@contract(HB + ".__iadd__", props=["C05", "C18"], name=HB + ".__iadd__[refusals, any bin count]")
+class _iadd_refuse_u:
+    """h += other for ANY number of bins is refused, with every content of both operands unchanged, when the other operand has
+    another number of bins, bins that differ somewhere beyond np.allclose's tolerance (no adaptivity), another dimension, or is not
+    a histogram (free arithmetics off)"""
+    def configs():
+        return [{"case": c} for c in ("other_count", "other_edge", "other_dimension", "not_a_histogram")]
+
+    def inputs(b):
+        n = nbins(b)
+        c = b.cfg.case
+        me = hist1d_t(b, "h", n, "int64")
+        if c == "other_count":
+            m = b.int("m")
+            b.assume(And(m >= 0, m != n))
+            other = hist1d_t(b, "o", m, "int64", static_binning_t(b, "C", m))
+        elif c == "other_edge":
+            ob = static_binning_t(b, "C", n)
+            k = b.int("k")
+            B, C = attr(attr(me, "_binnings")[0], "_bins"), attr(ob, "_bins")
+            # some left edge differs by more than atol + rtol * |edge| (np.allclose), here by more than 1 + |edge|
+            b.assume(And(k >= 0, k < n, C[k, 0] - B[k, 0] > 1 + absolute(C[k, 0])))
+            other = hist1d_t(b, "o", n, "int64", ob)
+        elif c == "other_dimension":
+            from .unbounded import hist2d_t as _h2
+            other = _h2(b, "o", b.int("p"), b.int("q"))
+        else:
+            other = b.real("x")
+        return dict(self=me, other=other)
+
+    @raises((ValueError, TypeError), "incompatible_operands_are_refused_nothing_changes",
+            state=lambda a, old: And(same(Fq(old.self), Fq(a.self)), same(Eq(old.self), Eq(a.self)),
+                                     same(elems(attr(old.self, "_missed")), elems(attr(a.self, "_missed"))),
+                                     same(attr(attr(old.self, "_binnings")[0], "_bins"), attr(attr(a.self, "_binnings")[0], "_bins")),
+                                     attr(a.self, "_dtype") == attr(old.self, "_dtype"),
+                                     Implies(is_obj(old.other), lambda: And(same(Fq(old.other), Fq(a.other)), same(Eq(old.other), Eq(a.other))))))
+    def _(o):
+        return True
+
+
 @contract(HB + ".densities", props=["C16"], name="Histogram1D.densities[any bin count]")
 class _dens_u:
     def configs():
